@@ -279,6 +279,12 @@ func c05Check(c c05Case) (string, []c05Verdict) {
 	}
 	implDir := c.Pkgs[len(c.Pkgs)-1]
 	verdicts := c05Expected(ld, proggen.Module+"/"+implDir, c.Sources, implDir)
+	why := c05CompareVerdicts(verdicts, res.Diags)
+	return why, verdicts
+}
+
+// c05CompareVerdicts matches the expected verdicts with the IMPL diagnostics.
+func c05CompareVerdicts(verdicts []c05Verdict, diags []engine.Diag) string {
 	// actual: (type, code, subject) from messages; subject = the qualifier
 	// (IMPL01) or the interface as written in the annotation (IMPL02/03)
 	type got struct {
@@ -288,13 +294,13 @@ func c05Check(c c05Case) (string, []c05Verdict) {
 		used    bool
 	}
 	actual := map[string][]*got{} // by type name
-	for _, d := range res.Diags {
+	for _, d := range diags {
 		if !strings.HasPrefix(d.Code, "IMPL") {
 			continue
 		}
 		m := implMsgRe.FindStringSubmatch(d.Message)
 		if m == nil {
-			return "unparsable IMPL message: " + firstLine(d.Message), verdicts
+			return "unparsable IMPL message: " + firstLine(d.Message)
 		}
 		tname := m[3] + m[5] + m[6]
 		g := &got{code: m[1], subject: m[2] + m[4] + m[7]}
@@ -413,7 +419,7 @@ func c05Check(c c05Case) (string, []c05Verdict) {
 		}
 	}
 	sort.Strings(probs)
-	return strings.Join(probs, "; "), verdicts
+	return strings.Join(probs, "; ")
 }
 
 func init() {
